@@ -704,3 +704,84 @@ Qed.
 Lemma monitor_never_mixed c f ops w' r m :
   In (w', (r, m)) (run repaired (init_world c f) ops) -> m <> MonMixed.
 Proof. apply (run_never_mixed repaired eq_refl ops _ (Inv_init _ _ _)). Qed.
+
+(* ------------------------------------------------------------------ safeTarEntryPath *)
+Definition dd_shape (out : list bstr) : Prop :=
+  exists n d, out = n ++ d /\ Forall (fun c => is_dotdot c = false) n /\ Forall (fun c => is_dotdot c = true) d.
+
+Lemma clean_comps_shape cs : forall out, dd_shape out -> dd_shape (rev (clean_comps false out cs)).
+Proof.
+  induction cs as [|c r IH]; simpl; intros out Hs.
+  - now rewrite rev_involutive.
+  - destruct c as [|x c']; [now apply IH|].
+    destruct (is_dot (x :: c')); [now apply IH|].
+    destruct (is_dotdot (x :: c')) eqn:Edd.
+    + destruct out as [|top rest].
+      * apply IH. exists [], [x :: c']. repeat split; auto.
+      * destruct (is_dotdot top) eqn:Et.
+        -- apply IH. destruct Hs as (n & d & E & Hn & Hd).
+           destruct n as [|n0 n'].
+           ++ simpl in E. subst d. exists [], ((x :: c') :: top :: rest). repeat split; auto.
+           ++ simpl in E. inv E. inv Hn. congruence.
+        -- apply IH. destruct Hs as (n & d & E & Hn & Hd).
+           destruct n as [|n0 n'].
+           ++ simpl in E. subst d. inv Hd. congruence.
+           ++ simpl in E. inv E. inv Hn. exists n', d. auto.
+    + apply IH. destruct Hs as (n & d & E & Hn & Hd). subst out.
+      exists ((x :: c') :: n), d. repeat split; auto.
+Qed.
+
+Lemma safe_entry_no_dotdot name cl :
+  safe_entry name = Some cl -> forall c, In c cl -> is_dotdot c = false.
+Proof.
+  unfold safe_entry. intros H.
+  destruct name as [|x0 name']; [inv H; intros ? []|].
+  destruct (is_dot (x0 :: name')); [inv H; intros ? []|].
+  destruct (N.eqb x0 47); [discriminate|].
+  set (cl0 := clean_comps false [] (split_slash (x0 :: name'))) in *.
+  assert (Hs : dd_shape (rev cl0)).
+  { apply clean_comps_shape. exists [], []. repeat split; constructor. }
+  destruct cl0 as [|c0 rest] eqn:Ecl.
+  - inv H. intros c [<-|[]]. reflexivity.
+  - destruct (is_dotdot c0) eqn:E0; [discriminate|].
+    destruct (starts_with _ _); [discriminate|]. inv H.
+    destruct Hs as (n & d & E & Hn & Hd).
+    assert (d = []).
+    { destruct d as [|d0 d'] using rev_ind; [reflexivity|].
+      rewrite app_assoc in E. simpl in E.
+      assert (rev (rev rest ++ [c0]) = rev ((n ++ d') ++ [d0])) by now rewrite E.
+      rewrite !rev_app_distr in H. simpl in H. inv H.
+      apply Forall_app in Hd as [_ Hd]. inv Hd. congruence. }
+    subst d. rewrite app_nil_r in E. intros c Hc.
+    rewrite Forall_forall in Hn. apply Hn. rewrite <- E. apply in_rev. now rewrite rev_involutive.
+Qed.
+
+(* ------------------------------------------------------------------ version after rollback *)
+Lemma rollback_resets_version v F w w' b gi :
+  v_curm_fix v = true -> Inv v w -> g_base w = Some (true, b, gi) ->
+  rollback_flow v F w = (w', RbOk) -> option_map j_from (jr w) = Some (cur w').
+Proof.
+  intros Hv Hi Hg H. unfold Inv in Hi. rewrite Hg in Hi. destruct Hi as [fr Hs].
+  destruct (rollback_ok_restores _ _ _ _ _ _ Hs H) as [_ Hc].
+  destruct Hs as (d & nv & es & H1 & _). rewrite H1, (Hc Hv). reflexivity.
+Qed.
+
+Lemma wrong_predecessor_after_rollback v F w w' b gi T Q F' pv wf :
+  v_curm_fix v = true -> Inv v w -> g_base w = Some (true, b, gi) ->
+  rollback_flow v F w = (w', RbOk) ->
+  t_prev T = Prev pv wf -> option_map j_from (jr w) <> Some pv ->
+  apply v T Q F' w' = (w', RErr).
+Proof.
+  intros Hv Hi Hg H Hp Hne. apply admission_before_mutation.
+  right. right. right. exists pv, wf. split; [assumption|right].
+  rewrite (rollback_resets_version _ _ _ _ _ _ Hv Hi Hg H) in Hne. congruence.
+Qed.
+
+Lemma run_Inv v : forall ops w, Inv v w -> v_mode_fix v = true ->
+  forall w' out, In (w', out) (run v w ops) -> Inv v w'.
+Proof.
+  induction ops as [|o ops IH]; simpl; intros w Hi Hv w' out Hin; [contradiction|].
+  destruct (step v w o) as [w1 [r1 m1]] eqn:Es.
+  destruct (step_spec _ _ _ _ _ _ Es Hi Hv) as [I1 _].
+  destruct Hin as [Heq|Hin]; [inv Heq; assumption|eauto].
+Qed.
